@@ -212,8 +212,8 @@ func checkColorPLY(c meshCase, o *kit.Obs) error {
 // segment CSV
 
 type csvCase struct {
-	Verts []vec2    `json:"verts"`
-	Segs  [][2]int     `json:"segs"`
+	Verts []vec2   `json:"verts"`
+	Segs  [][2]int `json:"segs"`
 }
 
 func genCSV(t *rapid.T) csvCase {
